@@ -27,7 +27,10 @@ def form_text_budget(chk):
             if rng.random() < 0.25:
                 fs.append({'name': 'f%d' % i, 'filename': 'up.bin', 'data': b'D' * rng.choice([10, buf + 5])})     # uploads do not count
             else:
-                fs.append({'name': 't%d' % i, 'value': 'v' * max(0, size + rng.randint(-3, 3))})
+                # the budget is counted in BYTES of text: multi-byte characters included
+                ch = rng.choice(['v', 'v', '\xe9', '\u20ac'])
+                nb = len(ch.encode('utf8'))
+                fs.append({'name': 't%d' % i, 'value': ch * max(0, (size + rng.randint(-3, 3)) // nb)})
         body = mplib.encode_form(fs, b)
         specs.append({'buf': buf, 'body': body, 'ctype': 'multipart/form-data; boundary=Bnd', 'what': 'forms+files', 'chunked': rng.random() < 0.3,
                       'seed': rng.randrange(10 ** 9)})
